@@ -32,6 +32,10 @@ type Proc struct {
 	Dead   bool // killed: its goroutines are never scheduled again
 	Frozen bool
 	Data   interface{}
+	// ProtoGen > 0: the protocol generation this simulated process announces and accepts as its maximum (see
+	// ProtoMax); ProtoGenSeen records that the library really consulted it.
+	ProtoGen     int
+	ProtoGenSeen bool
 }
 
 // G is a registered simulated goroutine.
@@ -1057,6 +1061,17 @@ var FnTable []string
 func ChanCap(n int) int {
 	if s := S; s != nil && s.cfg.ChanCap > 0 {
 		return s.cfg.ChanCap
+	}
+	return n
+}
+
+// ProtoMax is what the instrumenter puts in place of uses of the constant maxSupportProtoVersion inside function
+// bodies: a simulated process may belong to a later protocol generation than the code it runs (it announces a higher
+// maximum; the handshake must still settle on the lower of the two).
+func ProtoMax(n int) int {
+	if p := CurProc(); p != nil && p.ProtoGen > 0 {
+		p.ProtoGenSeen = true
+		return p.ProtoGen
 	}
 	return n
 }
